@@ -364,6 +364,28 @@ func c16Ops() []timedOp {
 				}
 			}})
 	}
+	// downstream ends early: the time-driven operator must stop its timers
+	for _, p := range []time.Duration{2 * u} {
+		p := p
+		noCheck := func(l *c16log, out []h.Entry, add func(clause, cls, detail string)) {}
+		for _, x := range []struct {
+			name string
+			op   func(ro.Observable[int]) ro.Observable[int]
+		}{
+			{"Timeout", ro.Timeout[int](p)}, {"Delay", ro.Delay[int](p)}, {"DelayEach", ro.DelayEach[int](p)},
+			{"ThrottleTime", ro.ThrottleTime[int](p)}, {"SampleTime", ro.SampleTime[int](p)},
+		} {
+			x := x
+			ops = append(ops, timedOp{name: fmt.Sprintf("%s(%s)|Take(1)", x.name, ms(int64(p))), d: p, maxTime: 12 * u,
+				build: func(src ro.Observable[int], l *c16log) func(rec *h.Rec) ro.Subscription {
+					return subTyped(ro.Take[int](1)(x.op(src)))
+				}, check: noCheck})
+		}
+		ops = append(ops, timedOp{name: fmt.Sprintf("BufferWithTime(%s)|Take(1)", ms(int64(p))), d: p, maxTime: 12 * u,
+			build: func(src ro.Observable[int], l *c16log) func(rec *h.Rec) ro.Subscription {
+				return subTyped(ro.Take[[]int](1)(ro.BufferWithTime[int](p)(src)))
+			}, check: noCheck})
+	}
 	ops = append(ops, timedOp{name: "Timestamp", d: u,
 		build: func(src ro.Observable[int], l *c16log) func(rec *h.Rec) ro.Subscription {
 			return subTyped(ro.Timestamp[int]()(src))
@@ -519,6 +541,9 @@ func c16Case(op timedOp, tl []tlItem, cutAt time.Duration, bound int) fw.Case {
 				add("grammar", grammarClass(rec.Events()), g)
 			}
 			op.check(l, rec.Log, add)
+			if l.cutAt < 0 && hasTerminal(rec.Events()) && r.TimersLeft > 0 {
+				add("timer-left-armed", "after-termination", fmt.Sprintf("the stream has terminated (trace [%s]) and %d timers of the library are still armed", rec.Trace(), r.TimersLeft))
+			}
 			if l.cutAt >= 0 {
 				for _, en := range rec.Log {
 					if en.In > l.cutTick {
